@@ -315,7 +315,7 @@ func ZzC16RecoveryInterruptW2B2() {
 	zzC16RecoveryOptI(2, 2)
 }
 func ZzC16RecoveryW2B3() { zzC16Recovery(2, 3) }
-func ZzC16RecoveryW3B3() { zzC16Recovery(3, 3) }
+func ZzC16RecoveryW3B2() { zzC16Recovery(3, 2) }
 
 var _ = chainhash.Hash{}
 
